@@ -5,6 +5,8 @@
 //                       "post":{sock,enc,lst,ver,authed,session,bindAvail,smAvail,smEnabled,smResumed,canResume,redirect,iq,conn},
 //                       "rawLeak":bool, "hang":bool}
 #include "fixture.h"
+#include "QXmppRegisterIq.h"
+#include "QXmppRegistrationManager.h"
 #include "loopback.h"
 #include "qxv.h"
 
@@ -123,6 +125,18 @@ struct Runner {
         conf.setUseSasl2Authentication(cfg["sasl2"].toBool());
         conf.setUseSASLAuthentication(cfg["sasl"].toBool());
         conf.setUseNonSASLAuthentication(cfg["legacy"].toBool());
+        // in-band registration on connect: the extension acts on the stream features before the stream
+        if (auto reg = cfg["reg"].toString(); !reg.isEmpty() && reg != "none") {
+            auto *rm = new QXmppRegistrationManager;
+            c->addExtension(rm);
+            rm->setRegisterOnConnectEnabled(true);
+            if (reg == "form") {
+                QXmppRegisterIq form;
+                form.setUsername(USER);
+                form.setPassword(PASSWORD);
+                rm->setRegistrationFormToSend(form);
+            }
+        }
         QObject::connect(c.get(), &QXmppClient::connected, c.get(), [this] { sig << "connected"; });
         QObject::connect(c.get(), &QXmppClient::disconnected, c.get(), [this] { sig << "disconnected"; });
         QObject::connect(c.get(), &QXmppClient::error, c.get(), [this](QXmppClient::Error) { sig << "error"; });
@@ -282,6 +296,9 @@ struct Runner {
             }
             return {};
         };
+        if (f["register"].toBool()) {
+            x += "<register xmlns='http://jabber.org/features/iq-register'/>";
+        }
         if (f["mechs"].toString() != "none") {
             x += "<mechanisms xmlns='urn:ietf:params:xml:ns:xmpp-sasl'>" + mechList(f["mechs"].toString()) + "</mechanisms>";
         }
